@@ -165,8 +165,13 @@ def make_os(fs):
         fs.mut.append(("os.open", S(path)))
         fs.os_open_flags = getattr(fs, "os_open_flags", []) + [(path, flags)]
         return 1000 + len(fs.os_open_flags)
+    def makedirs(p, mode=0o777, exist_ok=False):
+        fs.mut.append(("makedirs", S(p)))
+
+    def mkdir(p, mode=0o777):
+        fs.mut.append(("mkdir", S(p)))
     ns = SimpleNamespace(path=SymPath, sep="/", remove=fs.remove, rename=fs.rename, chmod=fs.chmod, environ=real_os.environ,
-                         getcwd=lambda: CWD, open=os_open)
+                         getcwd=lambda: CWD, open=os_open, makedirs=makedirs, mkdir=mkdir)
     for k in dir(real_os):
         if k.startswith("O_"):
             setattr(ns, k, getattr(real_os, k))
@@ -177,6 +182,10 @@ class FakeZipInfo:
     def __init__(self, name):
         self.filename = name
         self.external_attr = 0o644 << 16
+
+    def is_dir(self):
+        n = S(self.filename)
+        return bool(n.endswith("/")) if len(n) else False
 
 
 class FakeZipFile:
@@ -338,7 +347,7 @@ class ReceivePaths(Job):
             if op == "remove":
                 check(not SymPath.isdir(p), "an existing directory was removed")
                 check(out is not None, "an existing file was removed without --output-file")
-            if op in ("extract", "chmod") and self.mode == "directory":
+            if op in ("extract", "chmod", "makedirs", "mkdir") and self.mode == "directory":
                 check(sym_and(under(p, D), sym_not(S(p) == D) if len(S(p)) == len(S(D)) else True), "zip member written/chmod-ed outside the destination directory")
         if out is None and D is not None:
             # without --output-file an existing destination makes the transfer fail before any mutation
@@ -374,7 +383,7 @@ class ReceivePaths(Job):
                 return "%s outside the announced destination: %s" % (op, desc)
             if op == "remove" and (p in DIRS or out is None):
                 return "illegitimate removal: " + desc
-            if op in ("extract", "chmod") and self.mode == "directory" and not p.startswith(D + "/"):
+            if op in ("extract", "chmod", "makedirs", "mkdir") and self.mode == "directory" and not p.startswith(D + "/"):
                 return "zip member outside the destination directory: " + desc
         if out is None and D is not None and (D in FILES or D in DIRS) and (verdict != "rejected" or mut):
             return "existing destination not refused: " + desc
